@@ -1590,6 +1590,11 @@ class BinaryOperator(SymbolicExpression, ABC):
 @dataclass(eq=False)
 class ForAll(BinaryOperator):
 
+    _invert_: bool = field(init=False, default=False)
+    """
+    Whether the universal condition is negated (not_(for_all(...))): it is then true where the universal is false.
+    """
+
     @property
     def _name_(self) -> str:
         return self.__class__.__name__
@@ -1688,6 +1693,7 @@ class ForAll(BinaryOperator):
             holds = any(not self.condition._is_false_ for _ in self.condition._evaluate__(ctx))
             if not holds:
                 break
+        holds = holds != self._invert_
         self._is_false_ = not holds
         if holds or yield_when_false:
             yield copy(sources)
